@@ -103,6 +103,23 @@ pub struct Opts {
     pub scoped_heavy: bool,
     /// local names that begin with DSL keywords
     pub keywordish_names: bool,
+    /// 0: none; 1: inject exactly one violation of a static rule (C06); 2: inject one valid near-miss of a rule
+    pub static_fault: u8,
+}
+
+/// the one static-rule violation (or near-miss) injected into a program
+#[derive(Clone, Debug)]
+pub struct StaticFault {
+    /// catalogue entry
+    pub rule: String,
+    /// expected `CheckError` variant (Variable:<VariableError> for variable errors); empty for a near-miss
+    pub variant: String,
+    /// enclosing blocks, outermost first (top, if, for, scan)
+    pub context: String,
+    /// how the offending construct is embedded
+    pub form: String,
+    /// the reported location is the first occurrence of this token in the line marked `;FAULT`
+    pub loc_token: Option<String>,
 }
 
 pub struct Program {
@@ -115,6 +132,7 @@ pub struct Program {
     pub stanza_count: usize,
     pub has_fault: bool,
     pub features: Vec<&'static str>,
+    pub static_fault: Option<StaticFault>,
 }
 
 struct Gen<'a> {
@@ -132,6 +150,12 @@ struct Gen<'a> {
     fault_budget: usize,
     has_fault: bool,
     in_shorthand: bool,
+    /// statements to go before the static fault is injected (None: nothing pending)
+    sf_countdown: Option<usize>,
+    sf: Option<StaticFault>,
+    /// names declared in blocks that are closed by now
+    popped: Vec<String>,
+    block_kinds: Vec<&'static str>,
 }
 
 const REGEXES: &[(&str, usize)] = &[
@@ -468,21 +492,295 @@ impl<'a> Gen<'a> {
     }
 
     fn block(&mut self, depth: usize, indent: usize, pre: Vec<Local>) -> String {
+        self.block_k("if", depth, indent, pre)
+    }
+
+    fn block_k(&mut self, kind: &'static str, depth: usize, indent: usize, pre: Vec<Local>) -> String {
         self.scopes.push(pre);
+        self.block_kinds.push(kind);
         let n = self.r.range(1, 3);
         let mut out = String::new();
         for _ in 0..n {
             out.push_str(&self.stmt(depth, indent));
         }
-        self.scopes.pop();
+        self.block_kinds.pop();
+        let closed = self.scopes.pop().unwrap();
+        self.popped.extend(closed.into_iter().map(|l| l.name));
         out
+    }
+
+    fn visible(&self, name: &str) -> bool {
+        self.scopes.iter().any(|s| s.iter().any(|l| l.name == name)) || self.globals.iter().any(|g| g.0 == name)
+    }
+
+    /// a statement, preceded by the pending static fault when its time has come
+    fn stmt(&mut self, depth: usize, indent: usize) -> String {
+        let mut pre = String::new();
+        if let Some(n) = self.sf_countdown {
+            if n == 0 {
+                self.sf_countdown = None;
+                pre = if self.opts.static_fault == 2 { self.near_miss(indent) } else { self.violation(indent) };
+            } else {
+                self.sf_countdown = Some(n - 1);
+            }
+        }
+        pre + &self.stmt_inner(depth, indent)
+    }
+
+    fn context(&self) -> String {
+        let mut c = vec!["top"];
+        c.extend(self.block_kinds.iter());
+        c.join(">")
+    }
+
+    /// embeds a faulty expression `e` in a statement; returns (prefix lines, fault line without pad, form)
+    fn embed_expr(&mut self, e: &str) -> (String, String, &'static str) {
+        let wrapped: (String, &'static str) = match self.r.below(9) {
+            0 => (e.to_string(), "bare"),
+            1 => (format!("(plus 1 {})", e), "call-arg"),
+            2 => (format!("[{}]", e), "list-element"),
+            3 => (format!("{{2, {}}}", e), "set-element"),
+            4 => (format!("[ {} for zq in [1] ]", e), "comprehension-element"),
+            5 => (format!("[ zq for zq in [{}] ]", e), "comprehension-source"),
+            6 => (format!("{}.zscoped", e), "scope-of-scoped-variable"),
+            7 => (format!("(format \"{{}}\" (is-null [{}, 1]))", e), "nested-call-list"),
+            _ => (format!("{{ [{}] for zq in [1, 2] }}", e), "set-comprehension-element"),
+        };
+        let (w, form) = wrapped;
+        match self.r.below(8) {
+            0 => (String::new(), format!("let zf = {}", w), form),
+            1 => (String::new(), format!("var zf = {}", w), form),
+            2 => ("node zn\n".to_string(), format!("attr (zn) k = {}", w), form),
+            3 => (String::new(), format!("print {}", w), form),
+            4 => ("node zn\n".to_string(), format!("edge zn -> {}", w), form),
+            5 => (String::new(), format!("if (is-null {}) {{ }}", w), form),
+            6 => (String::new(), format!("for zi in [{}] {{ }}", w), form),
+            _ => ("var zm = 1\n".to_string(), format!("set zm = {}", w), form),
+        }
+    }
+
+    fn emit_fault(&mut self, indent: usize, rule: &str, variant: &str, form: &str, prefix: &str, line: &str, loc_token: Option<&str>) -> String {
+        let pad = "  ".repeat(indent);
+        self.sf = Some(StaticFault { rule: rule.to_string(), variant: variant.to_string(), context: self.context(), form: form.to_string(), loc_token: loc_token.map(|s| s.to_string()) });
+        let mut out = String::new();
+        for l in prefix.lines() {
+            out.push_str(&format!("{}{}\n", pad, l));
+        }
+        // the marker goes at the end of the first line of the offending statement
+        let mut lines = line.lines();
+        out.push_str(&format!("{}{} ;FAULT\n", pad, lines.next().unwrap_or("")));
+        for l in lines {
+            out.push_str(&format!("{}{}\n", pad, l));
+        }
+        out
+    }
+
+    /// a chain of bindings that carries non-locality from `src` to the returned name
+    fn nonlocal_chain(&mut self, src: &str, listy: bool) -> (String, String) {
+        let mut prefix = String::new();
+        let mut cur = src.to_string();
+        let n = self.r.below(4);
+        for k in 0..n {
+            let name = format!("zc{}", k);
+            let e = match self.r.below(5) {
+                0 => cur.clone(),
+                1 => format!("[{}]", cur),
+                2 => format!("(format \"{{}}\" {})", cur),
+                3 => format!("{{{}, 1}}", cur),
+                _ => format!("[ zq for zq in [1] ]").replace("[ zq for", &format!("[ {} for", cur)),
+            };
+            prefix.push_str(&format!("let {} = {}\n", name, e));
+            cur = name;
+        }
+        if listy {
+            // the consumer needs a list quantifier: a list literal keeps non-locality
+            prefix.push_str(&format!("let zl = [{}]\n", cur));
+            cur = "zl".to_string();
+        }
+        (prefix, cur)
+    }
+
+    /// exactly one violation of a static rule, at the current position
+    fn violation(&mut self, indent: usize) -> String {
+        let one_caps = self.captures_with(&|q| q == CaptureQuantifier::One);
+        let nonopt_caps = self.captures_with(&|q| q != CaptureQuantifier::ZeroOrOne);
+        let nonlist_caps = self.captures_with(&|q| q == CaptureQuantifier::One || q == CaptureQuantifier::ZeroOrOne);
+        let inner: Vec<Local> = self.scopes.last().unwrap().clone();
+        let immut = self.lookup_locals(&|l| !l.mutable);
+        let gone: Vec<String> = self.popped.iter().filter(|n| !self.visible(n)).cloned().collect();
+        for _ in 0..40 {
+            match self.r.below(16) {
+                0 => {
+                    let (p, l, f) = self.embed_expr("zundefined");
+                    return self.emit_fault(indent, "undefined-variable", "UndefinedVariable", f, &p, &l, Some("zundefined"));
+                }
+                1 if !gone.is_empty() => {
+                    let n = self.r.pick(&gone).clone();
+                    let (p, l, f) = self.embed_expr(&n);
+                    // the name may also occur earlier in the line only if it is a prefix of another token: names are unique
+                    return self.emit_fault(indent, "out-of-scope-variable", "UndefinedVariable", f, &p, &l, Some(&n));
+                }
+                2 => {
+                    // redefinition within a block
+                    let (prefix, name) = if !inner.is_empty() && self.r.chance(2, 3) { (String::new(), self.r.pick(&inner).name.clone()) } else { ("let zdup = 1\n".to_string(), "zdup".to_string()) };
+                    let (line, form) = match self.r.below(3) {
+                        0 => (format!("let {} = 2", name), "let"),
+                        1 => (format!("var {} = 2", name), "var"),
+                        _ => (format!("node {}", name), "node"),
+                    };
+                    let tok = format!(" {}", name);
+                    let _ = tok;
+                    return self.emit_fault(indent, "redefinition-in-block", "Variable:VariableAlreadyDefined", form, &prefix, &line, Some(&name));
+                }
+                3 => {
+                    // assignment to an immutable variable (possibly of an outer block)
+                    let (prefix, name) = if !immut.is_empty() && self.r.chance(2, 3) { (String::new(), self.r.pick(&immut).name.clone()) } else { ("let zimm = 1\n".to_string(), "zimm".to_string()) };
+                    return self.emit_fault(indent, "assign-immutable", "Variable:CannotAssignImmutableVariable", "set", &prefix, &format!("set {} = 2", name), Some(&name));
+                }
+                4 => return self.emit_fault(indent, "assign-undefined", "Variable:UndefinedVariable", "set", "", "set zundefined = 2", Some("zundefined")),
+                5 if !gone.is_empty() => {
+                    let n = self.r.pick(&gone).clone();
+                    return self.emit_fault(indent, "assign-out-of-scope", "Variable:UndefinedVariable", "set", "", &format!("set {} = 2", n), Some(&n));
+                }
+                6 if !self.globals.is_empty() => {
+                    let g = self.r.pick(&self.globals.clone()).0.clone();
+                    return self.emit_fault(indent, "assign-global", "CannotSetGlobalVariable", "set", "", &format!("set {} = \"x\"", g), Some(&g));
+                }
+                7 if !self.globals.is_empty() => {
+                    let g = self.r.pick(&self.globals.clone()).0.clone();
+                    let (line, form) = match self.r.below(6) {
+                        0 => (format!("let {} = 1", g), "let"),
+                        1 => (format!("var {} = 1", g), "var"),
+                        2 => (format!("node {}", g), "node"),
+                        3 => (format!("for {} in [1] {{ }}", g), "for-variable"),
+                        4 => (format!("let zf = [ 1 for {} in [1] ]", g), "comprehension-variable"),
+                        _ => (format!("print {{ 1 for {} in [1] }}", g), "set-comprehension-variable"),
+                    };
+                    return self.emit_fault(indent, "hide-global", "CannotHideGlobalVariable", form, "", &line, Some(&g));
+                }
+                8 => {
+                    let (p, l, f) = self.embed_expr("@zundefinedcap");
+                    return self.emit_fault(indent, "undefined-capture", "UndefinedSyntaxCapture", f, &p, &l, Some("@zundefinedcap"));
+                }
+                9 | 10 => {
+                    // a source that depends on a mutable or scoped variable
+                    let (mut prefix, src, how) = if !one_caps.is_empty() && self.r.chance(1, 2) {
+                        let c = self.r.pick(&one_caps).clone();
+                        (String::new(), format!("{}.zsv", self.use_capture(&c)), "scoped")
+                    } else if self.r.chance(1, 2) {
+                        ("var zmut = \"x\"\n".to_string(), "zmut".to_string(), "mutable")
+                    } else {
+                        ("var zmut = \"x\"\nset zmut = \"y\"\n".to_string(), "zmut".to_string(), "mutable-set")
+                    };
+                    let consumer = self.r.below(8);
+                    let listy = matches!(consumer, 3 | 4 | 5);
+                    let (chain, name) = self.nonlocal_chain(&src, listy);
+                    prefix.push_str(&chain);
+                    let (line, form, tok): (String, &str, &str) = match consumer {
+                        0 => (format!("scan {} {{\n  \"a\" {{ }}\n}}", name), "scan", "scan"),
+                        1 => (format!("if {} {{ }}", name), "if", &"__cond"),
+                        2 => (format!("if #false {{ }} elif {} {{ }}", name), "elif", &"__cond2"),
+                        3 => (format!("for zi in {} {{ }}", name), "for", "for"),
+                        4 => (format!("let zf = [ 1 for zq in {} ]", name), "list-comprehension", "["),
+                        5 => (format!("print {{ 1 for zq in {} }}", name), "set-comprehension", "{"),
+                        6 => (format!("if some {} {{ }}", name), "if-some", "some"),
+                        _ => (format!("if none {} {{ }}", name), "if-none", "none"),
+                    };
+                    let tok_owned: Option<String> = match tok {
+                        "__cond" => Some(name.clone()),
+                        "__cond2" => None,
+                        t => Some(t.to_string()),
+                    };
+                    let rule = format!("nonlocal-{}-source", how);
+                    return self.emit_fault(indent, &rule, "ExpectedLocalValue", form, &prefix, &line, tok_owned.as_deref());
+                }
+                11 => {
+                    // some/none on a non-optional value
+                    let v = match self.r.below(5) {
+                        0 if !nonopt_caps.is_empty() => { let c = self.r.pick(&nonopt_caps).clone(); self.use_capture(&c) }
+                        1 => "1".to_string(),
+                        2 => "[1]".to_string(),
+                        3 => "(is-null 1)".to_string(),
+                        _ => "#null".to_string(),
+                    };
+                    let (prefix, name) = if self.r.chance(1, 3) { (format!("let zo = {}\n", v), "zo".to_string()) } else { (String::new(), v) };
+                    let kw = *self.r.pick(&["some", "none"]);
+                    let (line, form) = if self.r.chance(1, 3) { (format!("if #false {{ }} elif {} {} {{ }}", kw, name), "elif") } else { (format!("if {} {} {{ }}", kw, name), "if") };
+                    return self.emit_fault(indent, "non-optional-condition", "ExpectedOptionalValue", form, &prefix, &line, Some(kw));
+                }
+                12 | 13 => {
+                    // iteration over a non-list
+                    let v = match self.r.below(6) {
+                        0 if !nonlist_caps.is_empty() => { let c = self.r.pick(&nonlist_caps).clone(); self.use_capture(&c) }
+                        1 => "1".to_string(),
+                        2 => "\"s\"".to_string(),
+                        3 => "(concat [1] [2])".to_string(),
+                        4 => "#null".to_string(),
+                        _ => "$0".to_string(),
+                    };
+                    let (prefix, name) = if self.r.chance(1, 3) { (format!("let zs = {}\n", v), "zs".to_string()) } else { (String::new(), v) };
+                    let (line, form, tok) = match self.r.below(3) {
+                        0 => (format!("for zi in {} {{ }}", name), "for", "for"),
+                        1 => (format!("let zf = [ zq for zq in {} ]", name), "list-comprehension", "["),
+                        _ => (format!("print {{ zq for zq in {} }}", name), "set-comprehension", "{"),
+                    };
+                    return self.emit_fault(indent, "iterate-non-list", "ExpectedListValue", form, &prefix, &line, Some(tok));
+                }
+                14 | 15 => {
+                    let re = *self.r.pick(&["a*", "", "(x)?", "b|", "[0-9]*", "^", "(a|b)*c?"]);
+                    let line = format!("scan \"abc\" {{\n  \"b\" {{ }}\n  \"{}\" {{ }}\n}}", re);
+                    return self.emit_fault(indent, "nullable-regex", "NullableRegex", "scan-arm", "", &line, None);
+                }
+                _ => continue,
+            }
+        }
+        String::new()
+    }
+
+    /// a valid construct that sits right next to a rule (must be accepted)
+    fn near_miss(&mut self, indent: usize) -> String {
+        let opt_caps = self.captures_with(&|q| q == CaptureQuantifier::ZeroOrOne);
+        let list_caps = self.captures_with(&|q| q == CaptureQuantifier::ZeroOrMore || q == CaptureQuantifier::OneOrMore);
+        let outer: Vec<Local> = if self.scopes.len() > 1 { self.scopes[..self.scopes.len() - 1].iter().flatten().filter(|l| !self.scopes.last().unwrap().iter().any(|i| i.name == l.name)).cloned().collect() } else { vec![] };
+        let muts = self.lookup_locals(&|l| l.mutable);
+        for _ in 0..40 {
+            match self.r.below(10) {
+                0 if !outer.is_empty() => {
+                    // shadowing a variable of an enclosing block is allowed; it lives in a nested block of its own
+                    let n = self.r.pick(&outer).name.clone();
+                    return self.emit_fault(indent, "shadow-outer-variable", "", "let", "", &format!("if #true {{\n  let {} = 2\n}}", n), None);
+                }
+                1 => return self.emit_fault(indent, "shadow-in-nested-block", "", "let", "let zsh = 1\n", "if #true {\n  let zsh = 2\n  for zsh in [1] { }\n}", None),
+                2 if !muts.is_empty() => {
+                    let n = self.r.pick(&muts).name.clone();
+                    return self.emit_fault(indent, "set-mutable-from-nested-block", "", "set", "", &format!("if #true {{\n  set {} = 2\n}}", n), None);
+                }
+                3 => return self.emit_fault(indent, "local-list-through-bindings", "", "for", "let zl1 = [1, 2]\nlet zl2 = zl1\n", "for zi in zl2 { }", None),
+                4 if !opt_caps.is_empty() => {
+                    let c = self.r.pick(&opt_caps).clone();
+                    let cap = self.use_capture(&c);
+                    return self.emit_fault(indent, "optional-through-binding", "", "if-some", &format!("let zo = {}\n", cap), "if some zo { } elif none zo { }", None);
+                }
+                5 if !list_caps.is_empty() => {
+                    let c = self.r.pick(&list_caps).clone();
+                    let cap = self.use_capture(&c);
+                    return self.emit_fault(indent, "capture-list-comprehension", "", "list-comprehension", "", &format!("let zf = [ (node-type zq) for zq in {} ]", cap), None);
+                }
+                6 => return self.emit_fault(indent, "non-nullable-regex", "", "scan-arm", "", "scan \"abc\" {\n  \"a+\" { }\n  \"b|c\" { }\n}", None),
+                7 => return self.emit_fault(indent, "mutable-read-in-attribute", "", "attr", "var zm2 = 1\nnode zn2\n", "attr (zn2) k = zm2, j = [zm2]", None),
+                8 => return self.emit_fault(indent, "immutable-of-local-is-local", "", "scan", "let zs1 = \"x\"\nlet zs2 = (format \"{}\" zs1)\n", "scan zs2 {\n  \"x\" { }\n}", None),
+                9 => return self.emit_fault(indent, "same-name-in-sibling-blocks", "", "if", "", "if #true {\n  let zsib = 1\n} else {\n  let zsib = 2\n}", None),
+                _ => continue,
+            }
+        }
+        String::new()
     }
 
     fn declare(&mut self, name: &str, ty: Ty, mutable: bool, local: bool, list_q: bool, opt_q: bool) {
         self.scopes.last_mut().unwrap().push(Local { name: name.to_string(), ty, mutable, local: local && !mutable, list_q, opt_q });
     }
 
-    fn stmt(&mut self, depth: usize, indent: usize) -> String {
+    fn stmt_inner(&mut self, depth: usize, indent: usize) -> String {
         let pad = "  ".repeat(indent);
         let d = depth.saturating_sub(1);
         let choice = if depth == 0 { self.r.below(9) } else { self.r.below(16) };
@@ -600,7 +898,7 @@ impl<'a> Gen<'a> {
                 let v = self.fresh("i");
                 let (src, el) = self.local_list_source(Ty::Syn, d);
                 let pre = vec![Local { name: v.clone(), ty: el, mutable: false, local: true, list_q: true, opt_q: false }];
-                format!("{}for {} in {} {{\n{}{}}}\n", pad, v, src, self.block(d, indent + 1, pre), pad)
+                format!("{}for {} in {} {{\n{}{}}}\n", pad, v, src, self.block_k("for", d, indent + 1, pre), pad)
             }
             13 | 14 => {
                 // scan
@@ -617,7 +915,7 @@ impl<'a> Gen<'a> {
                     }
                     used.push(re);
                     self.regex_groups = Some(groups);
-                    out.push_str(&format!("{}  \"{}\" {{\n{}{}  }}\n", pad, re.replace('\\', "\\\\"), self.block(d, indent + 2, vec![]), pad));
+                    out.push_str(&format!("{}  \"{}\" {{\n{}{}  }}\n", pad, re.replace('\\', "\\\\"), self.block_k("scan", d, indent + 2, vec![]), pad));
                 }
                 self.regex_groups = saved;
                 out.push_str(&format!("{}}}\n", pad));
@@ -689,7 +987,14 @@ pub fn gen_program(r: &mut Rng, pool: &[Pattern], opts: &Opts) -> Program {
         fault_budget,
         has_fault: false,
         in_shorthand: false,
+        sf_countdown: None,
+        sf: None,
+        popped: vec![],
+        block_kinds: vec![],
     };
+    let mut static_pending = opts.static_fault != 0;
+    // header- and stanza-level violations are chosen up front
+    let header_rule = if opts.static_fault == 1 { g.r.below(10) } else { 99 };
     let mut globals_out = Vec::new();
     // globals
     if g.r.chance(1, 3) {
@@ -730,6 +1035,14 @@ pub fn gen_program(r: &mut Rng, pool: &[Pattern], opts: &Opts) -> Program {
             g.shorthands.push("sh2".to_string());
         }
     }
+    let mut header_fault: Option<StaticFault> = None;
+    if header_rule == 0 && !g.globals.is_empty() {
+        let gname = g.r.pick(&g.globals.clone()).0.clone();
+        let q = *g.r.pick(&["", "*", "?", " = \"d2\""]);
+        text.push_str(&format!("global {}{} ;FAULT\n", gname, q));
+        header_fault = Some(StaticFault { rule: "duplicate-global".to_string(), variant: "DuplicateGlobalVariable".to_string(), context: "header".to_string(), form: "global".to_string(), loc_token: Some(gname) });
+        static_pending = false;
+    }
     let universal = opts.universal;
     let header = text.clone();
     let mut stanzas: Vec<String> = Vec::new();
@@ -744,17 +1057,27 @@ pub fn gen_program(r: &mut Rng, pool: &[Pattern], opts: &Opts) -> Program {
         stanzas.push("(call function: (_) @f) @c {\n  let @c.link = @f\n}\n".to_string());
     }
     let n_stanzas = g.r.range(1, opts.max_stanzas.max(1));
-    for _ in 0..n_stanzas {
+    let fault_stanza = if opts.static_fault != 0 { g.r.below(n_stanzas) } else { 0 };
+    for si in 0..n_stanzas {
         let p = g.r.pick(pool).clone();
         g.captures = p.captures.clone();
         g.used_captures.clear();
         g.scopes = vec![vec![]];
+        g.popped.clear();
         g.scoped_defined_here.clear();
         g.counter = 0;
+        if static_pending && g.sf.is_none() && g.sf_countdown.is_none() && si >= fault_stanza && header_rule != 1 {
+            g.sf_countdown = Some(g.r.below(7));
+        }
         let mut body = String::new();
         let n = g.r.range(1, 4);
         for _ in 0..n {
             body.push_str(&g.stmt(3, 1));
+        }
+        if static_pending && g.sf.is_none() && g.sf_countdown.is_some() && si + 1 == n_stanzas {
+            // the countdown outlived the program: inject at the end of the last stanza
+            g.sf_countdown = None;
+            body.push_str(&if opts.static_fault == 2 { g.near_miss(1) } else { g.violation(1) });
         }
         if g.opts.probe {
             for (i, c) in g.captures.clone().iter().enumerate() {
@@ -774,13 +1097,34 @@ pub fn gen_program(r: &mut Rng, pool: &[Pattern], opts: &Opts) -> Program {
             }
         }
         // the unused-capture rule: mention every capture not starting with `_`
-        let unused: Vec<String> = g.captures.iter().map(|c| c.0.clone()).filter(|c| !c.starts_with('_') && !g.used_captures.contains(c)).collect();
+        let mut unused: Vec<String> = g.captures.iter().map(|c| c.0.clone()).filter(|c| !c.starts_with('_') && !g.used_captures.contains(c)).collect();
+        let mut marker = "";
+        if static_pending && g.sf.is_none() && header_rule == 1 && !unused.is_empty() && (si + 1 == n_stanzas || g.r.chance(1, 2)) {
+            // leave one (or all) of them unmentioned
+            let dropped: Vec<String> = if g.r.chance(1, 3) { std::mem::take(&mut unused) } else { vec![unused.remove(g.r.below(unused.len()))] };
+            let mut names: Vec<String> = dropped.iter().map(|c| format!("@{}", c)).collect();
+            names.sort();
+            g.sf = Some(StaticFault { rule: "unused-capture".to_string(), variant: "UnusedCaptures".to_string(), context: "stanza".to_string(), form: names.join(" "), loc_token: Some(p.text.chars().take(1).collect()) });
+            marker = " ;FAULT";
+        }
         for (i, c) in unused.iter().enumerate() {
             body.push_str(&format!("  let u_{} = @{}\n", i, c));
         }
-        stanzas.push(format!("{} {{\n{}}}\n", p.text, body));
+        stanzas.push(format!("{} {{{}\n{}}}\n", p.text, marker, body));
     }
+    if static_pending && g.sf.is_none() && header_rule == 1 && opts.static_fault == 1 {
+        // no stanza had a capture to leave unused: fall back to a statement-level violation in a stanza of its own
+        g.captures = vec![];
+        g.used_captures.clear();
+        g.scopes = vec![vec![]];
+        g.popped.clear();
+        let body = g.violation(1);
+        stanzas.push(format!("(module) {{\n{}}}\n", body));
+    }
+    static_pending = false;
+    let _ = static_pending;
     let text = format!("{}{}", header, stanzas.concat());
     let stanza_count = stanzas.len();
-    Program { text, header, stanzas, globals: globals_out, stanza_count, has_fault: g.has_fault, features: g.features }
+    let static_fault = header_fault.or(g.sf.clone());
+    Program { text, header, stanzas, globals: globals_out, stanza_count, has_fault: g.has_fault, features: g.features, static_fault }
 }
